@@ -296,7 +296,7 @@ func runC18(r *vhlib.Run) {
 	}
 	{
 		sink, plain, _ := makeXFStream(xwCfg{Level: 6, ChunkSize: 8, Index: 2}, []xwOp{{Kind: 'w', Data: vhlib.RandBytes(rng, 30)}, {Kind: 'c'}})
-		xalpha := []rdOp{{Kind: 'r', N: 0}, {Kind: 'r', N: 5}, {Kind: 'r', N: 1000}, {Kind: 's', Off: 3, Wh: 0}, {Kind: 's', Off: 0, Wh: 2}, {Kind: 's', Off: -1, Wh: 0}, {Kind: 'c'}, {Kind: 'R'}}
+		xalpha := []rdOp{{Kind: 'r', N: 0}, {Kind: 'r', N: 5}, {Kind: 'r', N: 1000}, {Kind: 's', Off: 3, Wh: 0}, {Kind: 's', Off: 0, Wh: 2}, {Kind: 's', Off: -1, Wh: 0}, {Kind: 's', Off: 0, Wh: 1}, {Kind: 'c'}, {Kind: 'R'}}
 		var rec func(prefix []rdOp, k int)
 		rec = func(prefix []rdOp, k int) {
 			if len(prefix) > 0 {
